@@ -53,8 +53,35 @@ def kmers_with_partial_reference(rng):
     return dict(sequence=seq, constraints=cons, objectives=[], settings=problems.rand_settings(rng), np_seed=rng.randint(0, 10 ** 6))
 
 
+def budget_over_positions(rng):
+    """an edit budget over listed positions with gaps (AvoidChanges(indices=…, max_edits=k)) that covers several separate
+    forbidden sites: each site costs one edit of the budget, whatever the order in which they are resolved"""
+    from gen import hard
+    site = rng.choice(["GGTCTC", "CGTCTC", "GAATTC", "ACGT"])
+    k = len(site)
+    nsites = rng.randint(2, 3)
+    n = rng.randint(nsites * (k + 4) + 2, 60)
+    seq = list(hard.rand_seq(rng, n))
+    starts, pos = [], rng.randint(0, 3)
+    for _ in range(nsites):
+        if pos + k > n:
+            break
+        starts.append(pos)
+        seq[pos:pos + k] = site
+        pos += k + rng.randint(3, 8)
+    idx = sorted(i for a in starts for i in range(a, a + k))
+    budget = rng.randint(1, len(starts))
+    cons = [dict(kind="keep_edits", max_edits=budget, indices=idx, location=None), dict(kind="pattern", pattern=site, location=None)]
+    if rng.random() < 0.5:
+        cons.reverse()
+    return dict(sequence="".join(seq), constraints=cons, objectives=[], settings=problems.rand_settings(rng), np_seed=rng.randint(0, 10 ** 6))
+
+
 def gen_cases(rng, n):
     for i in range(n):
+        if i % 12 == 3:
+            yield dict(desc=budget_over_positions(rng), op="resolve")
+            continue
         if i % 12 == 7:
             yield dict(desc=kmers_with_partial_reference(rng), op="resolve")
             continue
@@ -82,6 +109,22 @@ def oracle(results, out):
                     failing.append("%s raised %s" % (c, type(e).__name__))
             if failing:
                 out.append(dict(kind="returned-with-breach", input=inp, detail="final %s failing %s" % (p.sequence, failing)))
+            elif not case["desc"].get("reuse_after") and not case["desc"].get("construct_first"):
+                # ... and by an independent reading of every constraint's documentation against the *input* sequence
+                # (the objects' own evaluation could be looking at a reference that moved)
+                import oracle_doc
+                seq0 = case["desc"]["sequence"].upper()
+                for d in case["desc"]["constraints"]:
+                    if d["kind"] == "kmers":
+                        continue    # evaluation vs documentation of UniquifyAllKmers is the open finding D9 (tracked under C10)
+                    try:
+                        w = oracle_doc.doc(d, seq0, p.sequence)
+                    except Exception:
+                        w = None
+                    if w is not None and w["score"] < -1e-9:
+                        out.append(dict(kind="returned-with-breach:by-documentation", input=inp,
+                                        detail="%s -> %s: %s scores %r" % (seq0, p.sequence, d, w["score"])))
+                        break
         elif info["outcome"] != "NoSolution" and not info["outcome"].startswith("fault:7"):
             exc = info.get("exception")
             kind = "wrong-exception:%s" % (type(exc).__name__ if exc is not None else info["outcome"])
